@@ -121,3 +121,63 @@ func (c *Chain) NewV2SFSpend(cs consensus.State, el types.SiafundElement, l *Loc
 	c.SignV2(cs, &txn, nil)
 	return txn
 }
+
+// V1MidDiffs returns, in the order the library's MidState records them, the
+// element diffs produced by the block's v1 transactions alone (the diff lists
+// of an apply of the block without its v2 part, cut where the block-level
+// effects - miner payouts, subsidy, expirations - begin). The position of an
+// element in its list is the index MidState keeps for its ID.
+func (c *Chain) V1MidDiffs(b types.Block) (sc []consensus.SiacoinElementDiff, sf []consensus.SiafundElementDiff, fc []consensus.FileContractElementDiff) {
+	pre := CloneBlock(b)
+	pre.V2 = nil
+	bs := c.SupplementFor(pre)
+	_, au := consensus.ApplyBlock(c.Tip(), pre, bs, pre.Timestamp)
+	scIDs, sfIDs, fcIDs := map[types.SiacoinOutputID]bool{}, map[types.SiafundOutputID]bool{}, map[types.FileContractID]bool{}
+	for i := range pre.Transactions {
+		t := &pre.Transactions[i]
+		for _, in := range t.SiacoinInputs {
+			scIDs[in.ParentID] = true
+		}
+		for j := range t.SiacoinOutputs {
+			scIDs[t.SiacoinOutputID(j)] = true
+		}
+		for _, in := range t.SiafundInputs {
+			sfIDs[in.ParentID] = true
+			scIDs[in.ParentID.ClaimOutputID()] = true
+		}
+		for j := range t.SiafundOutputs {
+			sfIDs[t.SiafundOutputID(j)] = true
+		}
+		for j := range t.FileContracts {
+			fcIDs[t.FileContractID(j)] = true
+		}
+		for _, r := range t.FileContractRevisions {
+			fcIDs[r.ParentID] = true
+		}
+		for _, p := range t.StorageProofs {
+			fcIDs[p.ParentID] = true
+			for j := 0; j < 8; j++ {
+				scIDs[p.ParentID.ValidOutputID(j)] = true
+			}
+		}
+	}
+	for _, d := range au.SiacoinElementDiffs() {
+		if !scIDs[d.SiacoinElement.ID] {
+			break
+		}
+		sc = append(sc, d)
+	}
+	for _, d := range au.SiafundElementDiffs() {
+		if !sfIDs[d.SiafundElement.ID] {
+			break
+		}
+		sf = append(sf, d)
+	}
+	for _, d := range au.FileContractElementDiffs() {
+		if !fcIDs[d.FileContractElement.ID] {
+			break
+		}
+		fc = append(fc, d)
+	}
+	return
+}
